@@ -383,3 +383,23 @@ func VerifC08Whitespace() {
 	nd.Assert(out == t.want, "ws-meaning-unchanged")
 	nd.Reach("C08.ws")
 }
+
+// VerifC08LiteralSpacing: whitespace between the parts of an expression never matters, whitespace
+// inside a string literal always does — also when an expression that differs only there has been
+// parsed before in the same process (same template, another template, another engine).
+func VerifC08LiteralSpacing() {
+	w1, w2 := nd.StringFrom(1+nd.Choice(2), " \t"), nd.StringFrom(1+nd.Choice(2), " \t")
+	x := nd.StringFrom(1, "ab")
+	first := "{{ \"a" + w1 + "b\" }}|{{ x | append: \"" + w1 + "-\" }}"
+	second := "{{  \"a" + w2 + "b\"  }}|{{ x  |  append:  \"" + w2 + "-\" }}"
+	b := Bindings{"x": x}
+	e := NewEngine()
+	o1, e1 := e.ParseAndRenderString(first, b)
+	o2, e2 := e.ParseAndRenderString(second, b)
+	o3, e3 := NewEngine().ParseAndRenderString(first+"#"+second, b)
+	nd.Assert(e1 == nil && e2 == nil && e3 == nil, "literal-spacing-no-error")
+	nd.Assert(o1 == "a"+w1+"b|"+x+w1+"-", "string-literal-keeps-its-whitespace")
+	nd.Assert(o2 == "a"+w2+"b|"+x+w2+"-", "string-literal-keeps-its-whitespace")
+	nd.Assert(o3 == o1+"#"+o2, "string-literal-keeps-its-whitespace")
+	nd.Reach("C08.literalspacing")
+}
